@@ -507,6 +507,24 @@ def judge(ctx, prop, runs):
         ctx.sample({"cfg": t["cfg"], "applied": t["meta"]["applied"][:6], "events": t["ev"][:40]})
 
 
+def binding_smoke(ctx, runs):
+    """the binding is not vacuous: a corrupted field and a removed injection point must be rejected"""
+    import copy
+    for spec, t in runs:
+        idx = [i for i, e in enumerate(t["ev"]) if e[0] == "wait" and e[1] > 0]
+        if idx and t["ev"][-1][0] == "end":
+            a = copy.deepcopy(t["ev"])
+            a[idx[0]][1] += 1                                  # wrong pid in a reap event
+            b = [e for e in t["ev"] if e[0] != "assign"]       # the WORKERS[pid] = worker hook removed
+            cfg = dict(t["cfg"], prop="ALL")
+            v, _ = tlc.validate_batch("ArbiterTrace", "ArbiterTrace.cfg", [{"cfg": cfg, "ev": a}, {"cfg": cfg, "ev": b}],
+                                      name="ArbiterTrace_smoke_" + ctx.prop)
+            ctx.coverage["binding_smoke"] = {"corrupted_pid": v[0][0], "removed_assign_hook": v[1][0]}
+            if v[0][0] == "ok" or v[1][0] == "ok":
+                raise tlc.TLCError("trace binding is vacuous: %s" % (v,))
+            return
+
+
 def execute(specs, line_points=False):
     runs = []
     for s in specs:
@@ -532,6 +550,7 @@ def common(ctx, prop, fam, design, deviations, sim_kinds):
     for tr in conformance(ctx, sim_kinds, 120 if ctx.quick else 1500):
         runs.append((None, tr))
     judge(ctx, prop, runs)
+    binding_smoke(ctx, runs)
     collect_models(ctx, futs)
     drv.cleanup()
     ctx.assumptions += [
@@ -556,7 +575,7 @@ def c03(ctx):
                                                     props=["BootFailureHalts"], inv=[])),
     ]
     if not ctx.quick:
-        design.append(("c03_big", dict(MaxForks=7, MaxFaults=2, MaxSigs=2, Statuses={"ok", "err", "b3"}, inv=SAFETY,
+        design.append(("c03_big", dict(MaxForks=6, MaxFaults=2, MaxSigs=2, Statuses={"ok", "b3"}, inv=SAFETY,
                                        workers=8)))
     common(ctx, "C03", fam_c03, design, dev, ["serve"])
 
